@@ -189,3 +189,35 @@ def _k1_confirm(prop):
 
 PROPS['C01']['confirm_known'] = _k1_confirm('C01')
 PROPS['C03']['confirm_known'] = _k1_confirm('C03')
+
+
+# ---------------------------------------------------------------- known findings K2 (C15), K3 (C06), K4 (C02)
+def _known_confirm(prop, prev=None):
+    def confirm(entry, term):
+        """re-run the witness of a `known` finding of this property on the implementation; True = it still fails"""
+        from ansi_string import AnsiString, AnsiStr
+        i = entry.get('id')
+        if i == 'K2' and prop == 'C15':
+            a = AnsiStr('a', '[31', '[34')
+            return a.is_formatting_valid() and [str(x) for x in a.ansi_settings_at(0)] == ['31', '34'] and '31' not in str(a)
+        if i == 'K3' and prop == 'C06':
+            s = AnsiString('abcd', 'red')
+            s.apply_formatting('bg_white', 1, 3, topmost=False)
+            s.remove_formatting('bg_white')
+            before = [[str(c) for c in s.ansi_settings_at(k)] for k in range(4)]
+            s.apply_formatting('blue', 0, 2)
+            r = term.run(str(s))
+            shown = None if r is None else r[1][1]
+            want = term.style(['34'])
+            # every character reported only red before; blue applied on top of [0,2) must show on 'b'
+            return before == [['31']] * 4 and (shown is None or want is None or shown != want)
+        if i == 'K4' and prop == 'C02':
+            a = AnsiString('\x1b[>4;2mX')
+            return a.base_str == 'X' and [str(x) for x in a.ansi_settings_at(0)] == ['2']
+        return prev(entry, term) if prev else None
+    return confirm
+
+
+PROPS['C15']['confirm_known'] = _known_confirm('C15')
+PROPS['C06']['confirm_known'] = _known_confirm('C06')
+PROPS['C02']['confirm_known'] = _known_confirm('C02')
